@@ -1,0 +1,7 @@
+//go:build verif
+// +build verif
+
+package snap
+
+// VerifQuiet silences the package logger (the harness loads thousands of damaged snapshot files).
+func VerifQuiet() { plog.Logger = nil }
